@@ -28,6 +28,10 @@ CLAIMED = {
    text="Theorems: the radix-2 transform equals the DFT for every size and every primitive root (C19_fft_rec_is_dft); the domain generators of all sizes 2^1..2^32 are primitive roots (C19_domain_roots); the forward and coset FFT of a coefficient vector of ANY length equal direct evaluation on the subgroup / coset (C19_fft_is_evaluation, C19_coset_fft_is_evaluation; inputs longer than the domain are reduced mod X^n-1 - true of the code after fix F5); the inverse transform is the scaled DFT at the inverse root; for every worker-thread count the split butterfly equals the serial one (C19_parallel_butterfly_serial); add/sub/mul/scale/trim act on evaluations as ring operations and Ruffini division satisfies p = (X-z)q + p(z). The executable model is compared with the real kernels (through cfg-guarded wrappers) on all sizes, lengths, pools 1..17 at 2^12, zero/trailing-zero vectors and points inside/outside the domain on every run. Not mechanised: ifft o fft = id (orthogonality sum), Lagrange interpolation identity, rayon combinators = sequential meaning.",
    technique="Coq proof (Cooley-Tukey by induction, list fusion; butterfly chunking) + differential correspondence of kernels vs extracted definitions",
    design="5/C19, 6/F5-F6"),
+ "C05": dict(
+   text="Theorems: the extracted row evaluator decides satisfaction of the padded cyclic domain (C05_row_evaluator_exact); the challenge-combined row identity (all five widgets and the public input, combined as compute_quotient_i combines them) is equivalent to the component-wise identities - implied for all challenges, and implying them whenever it holds on an 8x10x8x6 grid of distinct challenge values (root bound C05_roots_all_zero); wire values invariant under the copy permutation make the grand product close for every beta, gamma (C05_grand_product_closes). Partial: the degree test 'len > 7n <=> numerator not divisible by Z_H' and the construction of sigma from the copy classes are argued in DESIGN.md, not mechanised. On every run Prover::prove is compared with the evaluator's verdict on (compiled selectors, instance wires, instance public inputs) plus the copy-class check, over satisfied / one-witness-overridden / raw-selector / full-domain / different-wiring / wrong-size / low-degree-remainder instances; every returned proof is verified.",
+   technique="Coq proof (root bound, separation of challenges, permutation product) + differential correspondence of Prover::prove vs the proved row evaluator",
+   design="5/C05"),
  "C08": dict(
    text="Machine-checked theorems (Props/C08.v) state, for every selector tuple, wiring and assignment, the exact relation each arithmetic/equality/boolean/selection component enforces, uniqueness of returned witnesses, completeness of honest values and locality of arithmetic blocks inside any satisfied system; the Gallina composer model they are about is compared on every run with the real Composer (gates, public-input rows, witness values) on generated programs, and the real snapshots are probed with perturbed assignments evaluated by the proved-sound row evaluator.",
    technique="Coq proof over a Gallina model of the composer + differential correspondence (L3 snapshot tie) + exactness probe on real layouts",
